@@ -43,6 +43,11 @@ func streamRoute(c *ctx) {
 		mode := rng.Pick(r, "unconfigured", "no-address", "zero-address", "udp", "tcp", "any", "udp", "tcp")
 		k := r.Intn(len(ips))
 		bindPort := rng.Pick(r, 0, 0, freePort())
+		// every run starts with each mode under bind port 0 and under a fixed bind port
+		if modes := []string{"unconfigured", "no-address", "zero-address", "udp", "tcp", "any"}; n < 2*len(modes) {
+			mode = modes[n/2]
+			bindPort = []int{0, freePort()}[n%2]
+		}
 		bcast := r.Intn(len(ips)) // the broadcast address is endpoint `bcast` (UDP)
 		devices := []uhppote.Device{}
 		uap := netip.MustParseAddrPort(udps[k].addr())
@@ -151,9 +156,19 @@ func streamRListen(c *ctx) {
 					SystemDate: types.SystemDate(time.Date(2024, 1, 2, 0, 0, 0, 0, time.Local)), SystemTime: types.SystemTime(time.Date(0, 1, 1, 3, 4, 5, 0, time.Local))}
 				b, _ := codec.Marshal(ev)
 				s := senders[i%len(senders)]
-				switch r.Intn(4) {
+				kind := r.Intn(5)
+				if cycle == 0 && i < 3 {
+					kind = []int{4, 2, 5}[i] // every run: over-long datagrams (valid event + 1 / + 64 bytes), which must be errors
+				}
+				switch kind {
 				case 0:
 					s.Write(b[:rng.Pick(r, 1, 63)])
+					bad++
+				case 4:
+					s.Write(append(append([]byte{}, b...), 0x00))
+					bad++
+				case 5:
+					s.Write(append(append([]byte{}, b...), b...))
 					bad++
 				case 1:
 					b[0] = 0x19
@@ -199,7 +214,7 @@ func streamRListen(c *ctx) {
 		}
 		c.w.Emit(fmt.Sprintf("rlisten port=%d cycles=3", port), strings.Join(res, " "), "rlisten")
 	}
-	c.w.Notes = append(c.w.Notes, "rlisten stream: the real UDP listener on a loopback port, 3 start / stop cycles with immediate re-bind; per cycle 3..8 datagrams from two senders (valid, v6.62, truncated); events must arrive once each in order, one error per malformed datagram, connected once, Listen returns nil")
+	c.w.Notes = append(c.w.Notes, "rlisten stream: the real UDP listener on a loopback port, 3 start / stop cycles with immediate re-bind; per cycle 3..8 datagrams from two senders (valid, v6.62, truncated, valid event followed by 1 or 64 more bytes); events must arrive once each in order, one error per malformed datagram, connected once, Listen returns nil")
 	_ = cases.Hex
 }
 
@@ -231,7 +246,10 @@ func streamRDiscover(c *ctx) {
 			if r.Chance(1, 6) {
 				d = T + slack + time.Duration(r.Intn(50))*time.Millisecond // after the window
 			}
-			plan = append(plan, planned{d, uint32(6000001 + r.Intn(3)), rng.Pick(r, "valid", "valid", "valid", "short", "wrong-code", "bad-bcd")})
+			plan = append(plan, planned{d, uint32(6000001 + r.Intn(3)), rng.Pick(r, "valid", "valid", "valid", "short", "wrong-code", "bad-bcd", "long", "long64")})
+		}
+		if n == 0 { // every run: over-long datagrams whose first 64 bytes are a valid reply, between two valid replies
+			plan = []planned{{5 * time.Millisecond, 6000001, "valid"}, {12 * time.Millisecond, 6000002, "long"}, {20 * time.Millisecond, 6000003, "long64"}, {28 * time.Millisecond, 6000002, "valid"}}
 		}
 		sort.SliceStable(plan, func(i, j int) bool { return plan[i].delay < plan[j].delay })
 		rs := newUDPResponder("127.0.0.1", func(req []byte) []step {
@@ -247,6 +265,10 @@ func streamRDiscover(c *ctx) {
 					b[1] = 0x92
 				case "bad-bcd":
 					b[28] = 0xaa
+				case "long":
+					b = append(b, 0x00)
+				case "long64":
+					b = append(b, b...)
 				}
 				out = append(out, step{p.delay, b})
 			}
@@ -280,5 +302,5 @@ func streamRDiscover(c *ctx) {
 		c.w.Emit(fmt.Sprintf("rdiscover T=%d | %s", T.Milliseconds(), strings.Join(ps, " ")), fmt.Sprintf("%s [%s] %s", res, strings.Join(got, ","), timeClass(el)), "rdiscover")
 		_ = want
 	}
-	c.w.Notes = append(c.w.Notes, "rdiscover stream: GetDevices through the real driver against a responder that answers with 0..5 datagrams (valid / truncated / wrong function code / non-BCD date; duplicates of 3 serial numbers) at 3..100 ms or after the window; the call lasts one timeout")
+	c.w.Notes = append(c.w.Notes, "rdiscover stream: GetDevices through the real driver against a responder that answers with 0..5 datagrams (valid / truncated / over-long with a valid 64-byte prefix / wrong function code / non-BCD date; duplicates of 3 serial numbers) at 3..100 ms or after the window; the call lasts one timeout")
 }
